@@ -1,6 +1,7 @@
 package rules
 
 import (
+	"fmt"
 	"go/ast"
 	"go/token"
 	"go/types"
@@ -1087,4 +1088,113 @@ func rootedCleanRule(c *Ctx) {
 		}
 	}
 	c.S.Hold("C01", "ENC-ROOTEDCLEAN", "calls", "-", itoa(n)+" calls of path.Clean / filepath.Clean examined: none cleans a relative part behind a leading separator")
+}
+
+func init() {
+	register(Rule{
+		Name:  "LOOPVAR-CLOSURE",
+		Props: []string{"C19", "C17", "C01", "C09"},
+		Doc:   "a function literal that runs after the iteration (defer, go) does not read the loop's variables",
+		Run:   loopClosureRule,
+	})
+}
+
+// loopClosureRule (LOOPVAR-CLOSURE): `defer func() { m[k] = v }()` in the body of `for k, v := range m` runs when the
+// function returns; under the language version of this module (go.mod: before 1.22) the literals of all iterations
+// share one k and one v, so only the last entry is written. A function literal that is deferred or started as a
+// goroutine inside a loop must not mention the loop's variables (hand them over as arguments instead). With a
+// go.mod at 1.22 or later each iteration has its own variables and the rule has nothing to say.
+func loopClosureRule(c *Ctx) {
+	perIteration := false
+	if pk := c.P.Pkg(""); pk != nil && pk.Module != nil {
+		v := pk.Module.GoVersion
+		var maj, min int
+		if _, err := fmt.Sscanf(v, "%d.%d", &maj, &min); err == nil && (maj > 1 || maj == 1 && min >= 22) {
+			perIteration = true
+		}
+	}
+	n := 0
+	ordinal := map[*core.FuncInfo]int{}
+	for _, fi := range c.P.SortedFuncs() {
+		if !strings.HasPrefix(fi.Pkg.PkgPath, core.ModPath) {
+			continue
+		}
+		prop := "C09"
+		switch {
+		case c.below(fi, "FixEmptyResponseDescriptions"):
+			prop = "C19"
+		case c.below(fi, "Mixin"):
+			prop = "C17"
+		case c.below(fi, "Flatten") && !c.onSpec(fi):
+			prop = "C01"
+		}
+		info := c.info(fi)
+		pm := c.parents(fi)
+		ast.Inspect(fi.Decl.Body, func(nd ast.Node) bool {
+			var call *ast.CallExpr
+			switch x := nd.(type) {
+			case *ast.DeferStmt:
+				call = x.Call
+			case *ast.GoStmt:
+				call = x.Call
+			default:
+				return true
+			}
+			lit, ok := core.Unparen(call.Fun).(*ast.FuncLit)
+			if !ok {
+				return true
+			}
+			// the loops around the statement and their variables
+			vars := map[types.Object]string{}
+			for cur := pm[nd]; cur != nil; cur = pm[cur] {
+				switch lp := cur.(type) {
+				case *ast.RangeStmt:
+					if lp.Tok == token.DEFINE {
+						for _, e := range []ast.Expr{lp.Key, lp.Value} {
+							if e != nil {
+								if o := core.ObjOf(info, e); o != nil && o.Name() != "_" {
+									vars[o] = o.Name()
+								}
+							}
+						}
+					}
+				case *ast.ForStmt:
+					if as, isAs := lp.Init.(*ast.AssignStmt); isAs && as.Tok == token.DEFINE {
+						for _, e := range as.Lhs {
+							if o := core.ObjOf(info, e); o != nil {
+								vars[o] = o.Name()
+							}
+						}
+					}
+				case *ast.FuncLit:
+					cur = nil
+				}
+				if cur == nil {
+					break
+				}
+			}
+			if len(vars) == 0 {
+				return true
+			}
+			n++
+			ordinal[fi]++
+			var used []string
+			ast.Inspect(lit.Body, func(m ast.Node) bool {
+				if id, isId := m.(*ast.Ident); isId {
+					if name, isLoopVar := vars[info.Uses[id]]; isLoopVar {
+						used = append(used, name)
+					}
+				}
+				return true
+			})
+			sort.Strings(used)
+			c.S.Decide(len(used) == 0 || perIteration, prop, "LOOPVAR-CLOSURE", fi.QName()+"/literal#"+itoa(ordinal[fi]), c.P.Pos(nd.Pos()),
+				"the function literal run after the iteration does not read the loop's variables",
+				"a function literal that runs after the iteration (defer/go) reads the loop variable(s) "+strings.Join(used, ", ")+": under this module's language version all iterations share them, so every literal sees the values of the last iteration — only one entry is written back")
+			return true
+		})
+	}
+	for _, prop := range []string{"C19", "C17", "C01"} {
+		c.S.Hold(prop, "LOOPVAR-CLOSURE", "literals", "-", itoa(n)+" deferred or concurrent function literals inside loops examined")
+	}
 }
